@@ -149,10 +149,33 @@ func emptyPrimaryWithAlias(d *dv) bool {
 	return false
 }
 
+func hasMergeKey(d *dv) bool {
+	switch d.kind {
+	case 'l':
+		for _, e := range d.l {
+			if hasMergeKey(e) {
+				return true
+			}
+		}
+	case 'm':
+		for _, e := range d.m {
+			if e.k == "<<" || hasMergeKey(e.v) {
+				return true
+			}
+		}
+	}
+	return false
+}
+
 func c09reparse(leg string, data []byte, c sx.S, j1 string, kinds1 string, epa bool) {
+	mergeKey := strings.Contains(j1, `"\u003c\u003c":`) && leg == "yaml"
 	p2, err := pipeline.Parse(bytes.NewReader(data))
 	if err != nil && !warning.Is(err) {
-		oracleFail("C09", "reparse-"+leg+"-error", c, fmt.Sprintf("re-parsing the %s marshalling fails: %v\n%s", leg, err, data))
+		cls := "reparse-" + leg + "-error"
+		if mergeKey {
+			cls = "reparse-yaml-merge-key"
+		}
+		oracleFail("C09", cls, c, fmt.Sprintf("re-parsing the %s marshalling fails: %v\n%s", leg, err, data))
 		return
 	}
 	if k2 := stepKinds(p2.Steps); k2 != kinds1 {
@@ -169,6 +192,9 @@ func c09reparse(leg string, data []byte, c sx.S, j1 string, kinds1 string, epa b
 		cls := "reparse-" + leg + "-differs"
 		if epa {
 			cls = "reparse-empty-primary-with-alias"
+		}
+		if mergeKey {
+			cls = "reparse-yaml-merge-key"
 		}
 		oracleFail("C09", cls, c, fmt.Sprintf("normal form is not a fixpoint over the %s leg:\nfirst : %s\nsecond: %s\nvia   : %s", leg, j1, j2, data))
 		return
@@ -215,6 +241,18 @@ func init() {
 			}
 			j1, _ := canonJSON(jb)
 			kinds := stepKinds(p.Steps)
+			// model comparison: first and second generation JSON over the JSON leg
+			if a, derr := decodeText(text); derr == nil {
+				if p2, err2 := pipeline.Parse(bytes.NewReader(jb)); err2 == nil || warning.Is(err2) {
+					if jb2, e := json.Marshal(p2); e == nil {
+						s1, e1 := jsonSexp(jb)
+						s2, e2 := jsonSexp(jb2)
+						if e1 == nil && e2 == nil {
+							fmt.Fprintf(out, "CASE\tC09\t%s\t%s\t1\n", sx.String(anySexp(a)), sx.String(sx.L(s1, s2)))
+						}
+					}
+				}
+			}
 			c09reparse("json", jb, c, j1, kinds, emptyPrimaryWithAlias(d))
 			// the YAML-leg exclusion applies to the strings of the parsed pipeline (commands are joined with newlines)
 			var outv any
